@@ -555,7 +555,7 @@ func ProjectBlock(d *Decl, src string, chainID uint64, b *simnode.Block, look Re
 				cells := refmodel.ExpectedRows(d.Inputs, meta.Vals)
 				for ri, cellrow := range cells {
 					ev := Row{}
-					a := agg{kind: d.FilterAgg}
+					a := agg{kind: strings.ToLower(d.FilterAgg)}
 					// indexed selected inputs: the topic at the input's own indexed position
 					ipos := 0
 					for ii, f := range d.Inputs {
@@ -589,7 +589,7 @@ func ProjectBlock(d *Decl, src string, chainID uint64, b *simnode.Block, look Re
 }
 
 func (d *Decl) blockRow(c *itemCtx, look RefLookup, base Row) (Row, bool) {
-	a := agg{kind: d.FilterAgg}
+	a := agg{kind: strings.ToLower(d.FilterAgg)}
 	return d.blockRowAgg(c, look, base, &a, 0)
 }
 
